@@ -1,11 +1,11 @@
 package main
 
 // op `i2.newrule` (integration group I2): the COMPLETE model of rules.NewRule.
-//   i2.newrule <line> <listID> <addrs> <prefixes> <reshortcuts> = none|err|PANIC|<R/H/K record>
+//   i2.newrule <line> <listID> <addrs> <prefixes> = none|err|PANIC|<R/H/K record>
 // The driver parses the line with the composed model (TrimSpace, comment / cosmetic / hosts /
 // network dispatch, every modifier, $dnsrewrite values, IsDomainName) and prints the whole parsed
-// record; the only Go-supplied tables are netip.ParseAddr, netip.ParsePrefix and the shortcut of a
-// /regex/ pattern.  The candidate strings of the tables are obtained with Go's own splitting
+// record; the only Go-supplied tables are netip.ParseAddr and netip.ParsePrefix (the shortcut of a
+// /regex/ pattern comes from the text-level model of findRegexpShortcut).  The candidate strings of the tables are obtained with Go's own splitting
 // functions; a model that splits differently misses the table and the disagreement shows.
 
 import (
@@ -18,9 +18,8 @@ import (
 
 func init() { gens["i2.newrule"] = genI2NewRule }
 
-// i2Oracles returns the strings the parse of the (trimmed) line can ask netip about, and the regex
-// shortcut table.
-func i2Oracles(text string) (addrs []string, reTable string) {
+// i2Oracles returns the strings the parse of the (trimmed) line can ask netip about.
+func i2Oracles(text string) (addrs []string) {
 	// hosts syntax: the first blank-separated token of the line cut at the comment sign
 	func() {
 		defer func() { _ = recover() }()
@@ -37,9 +36,7 @@ func i2Oracles(text string) (addrs []string, reTable string) {
 		if err != nil {
 			return
 		}
-		if len(pattern) > 1 && pattern[0] == '/' && pattern[len(pattern)-1] == '/' {
-			reTable = wlist(wb(pattern), wb(rules.VerifFindRegexpShortcut(pattern)))
-		}
+		_ = pattern
 		for _, o := range rules.VerifSplitWithEscapeCharacter(options, ',', '\\', false) {
 			name, value := o, ""
 			if eq := strings.IndexByte(o, '='); eq > 0 {
@@ -72,7 +69,7 @@ func i2Oracles(text string) (addrs []string, reTable string) {
 		}
 	}()
 
-	return addrs, wlist(reTable)
+	return addrs
 }
 
 func i2DNSRewriteRule(r *rng) string {
@@ -146,16 +143,16 @@ func genI2NewRule(r *rng, n int, w *bufio.Writer) {
 				return strings.ReplaceAll(wrule(rule), " ", ",")
 			}
 		})
-		addrs, reTable := i2Oracles(strings.TrimSpace(line))
-		fmt.Fprintf(w, "i2.newrule %s %d %s %s %s = %s ## %s\n", wb(line), id, waddrs(addrs...), wprefixes(addrs...), reTable,
+		addrs := i2Oracles(strings.TrimSpace(line))
+		fmt.Fprintf(w, "i2.newrule %s %d %s %s = %s ## %s\n", wb(line), id, waddrs(addrs...), wprefixes(addrs...),
 			ans, noteStr(line))
 	}
 }
 
 // op `i2.textmatch`: rule TEXT + request -> Go NewNetworkRule + Match, versus the complete parser
 // model + Match over modelPat, versus the reference computed from the parsed values and the mask
-// language.  No Go-supplied table but psl / addr / prefix (and the shortcut of a /regex/ pattern).
-//   i2.textmatch <text> <listID> <addrs> <prefixes> <reshortcuts> <Q> <psl> = T|F|err
+// language.  No Go-supplied table but psl / addr / prefix.
+//   i2.textmatch <text> <listID> <addrs> <prefixes> <Q> <psl> = T|F|err
 func init() { gens["i2.textmatch"] = genI2TextMatch }
 
 func genI2TextMatch(r *rng, n int, w *bufio.Writer) {
@@ -222,10 +219,10 @@ func genI2TextMatch(r *rng, n int, w *bufio.Writer) {
 		if f != nil {
 			ans = guardStr(func() string { return wbool(f.Match(q)) })
 		}
-		addrs, reTable := i2Oracles(t)
+		addrs := i2Oracles(t)
 		addrs = append(addrs, q.Hostname)
-		fmt.Fprintf(w, "i2.textmatch %s %d %s %s %s %s %s = %s ## %s | %s src=%s host=%s hostreq=%v type=%d dns=%d tags=%q client=%q/%s\n",
-			wb(t), id, waddrs(addrs...), wprefixes(addrs...), reTable, wrequest(q), wpsl(q.Hostname, q.SourceHostname), ans,
+		fmt.Fprintf(w, "i2.textmatch %s %d %s %s %s %s = %s ## %s | %s src=%s host=%s hostreq=%v type=%d dns=%d tags=%q client=%q/%s\n",
+			wb(t), id, waddrs(addrs...), wprefixes(addrs...), wrequest(q), wpsl(q.Hostname, q.SourceHostname), ans,
 			noteStr(t), noteStr(q.URL), noteStr(q.SourceHostname), noteStr(q.Hostname), q.IsHostnameRequest, q.RequestType, q.DNSType,
 			q.SortedClientTags, q.ClientName, q.ClientIP)
 	}
